@@ -366,11 +366,56 @@ Proof.
   - repeat split.
 Qed.
 
+(* the executed loop (ballots accumulated in front, reversed once) computes the same state as the loop the
+   proofs are about *)
+Lemma rev_ballots_snoc m ps bs b :
+  mkPstate m ps (b :: rev bs) = rev_ballots (mkPstate m ps (bs ++ [b])).
+Proof. unfold rev_ballots. simpl. rewrite rev_app_distr. reflexivity. Qed.
+
+Lemma parse_loop_acc_spec : forall n rows, (List.length rows <= n)%nat -> forall sec h st,
+  PabulibM.parse_loop_acc read_num sec h (rev_ballots st) rows = option_map rev_ballots (parse_loop sec h st rows).
+Proof.
+  induction n as [|n IH]; intros rows Hn sec h st.
+  - destruct rows; [reflexivity|simpl in Hn; lia].
+  - destruct rows as [|row rest]; [reflexivity|]. simpl in Hn.
+    assert (Hr : (List.length rest <= n)%nat) by lia.
+    cbn [PabulibM.parse_loop PabulibM.parse_loop_acc].
+    destruct (is_blank_row row); [apply IH; exact Hr|].
+    destruct row as [|c0 t]; [reflexivity|].
+    destruct (section_of c0) as [sec'|].
+    + destruct rest as [|h' rest']; [reflexivity|]. apply IH. simpl in Hr. lia.
+    + destruct sec.
+      * apply IH; exact Hr.
+      * destruct t as [|v t']; [reflexivity|].
+        change (mkPstate (dict_set (strip c0) (strip v) (ps_meta (rev_ballots st))) (ps_projects (rev_ballots st))
+                  (ps_ballots (rev_ballots st)))
+          with (rev_ballots (mkPstate (dict_set (strip c0) (strip v) (ps_meta st)) (ps_projects st) (ps_ballots st))).
+        apply IH; exact Hr.
+      * destruct (PabulibM.parse_project_row read_num h (c0 :: t)) as [p|]; [|reflexivity].
+        change (mkPstate (ps_meta (rev_ballots st)) (add_project p (ps_projects (rev_ballots st)))
+                  (ps_ballots (rev_ballots st)))
+          with (rev_ballots (mkPstate (ps_meta st) (add_project p (ps_projects st)) (ps_ballots st))).
+        apply IH; exact Hr.
+      * cbn [rev_ballots ps_meta ps_projects ps_ballots].
+        destruct (PabulibM.parse_vote_row read_num h (ps_meta st) (ps_projects st) (c0 :: t)) as [b|]; [|reflexivity].
+        rewrite rev_ballots_snoc. apply IH; exact Hr.
+Qed.
+
+Theorem parse_rows_spec rows :
+  parse_rows rows = obind (parse_loop SecNone [] (mkPstate [] [] []) rows) finish.
+Proof.
+  unfold PabulibM.parse_rows.
+  change (mkPstate [] [] []) with (rev_ballots (mkPstate [] [] [])) at 1.
+  rewrite (parse_loop_acc_spec (List.length rows) rows (le_n _)).
+  destruct (parse_loop SecNone [] (mkPstate [] [] []) rows) as [st|]; [|reflexivity].
+  simpl. destruct st as [m ps bs]. unfold rev_ballots. simpl. now rewrite rev_involutive.
+Qed.
+
 Theorem parse_rows_finish rows e :
   parse_rows rows = Some e ->
   exists st, parse_loop SecNone [] (mkPstate [] [] []) rows = Some st /\ finish st = Some e.
 Proof.
-  unfold PabulibM.parse_rows. intros H.
+  rewrite parse_rows_spec. intros H.
   destruct (PabulibM.parse_loop read_num SecNone [] (mkPstate [] [] []) rows) as [st|] eqn:E;
     [|discriminate]. exists st. split; [reflexivity|exact H].
 Qed.
